@@ -37,7 +37,7 @@ def demo(wt, k, feats):
         os.remove(os.path.join(wt, 'tests', 'seed_demo_%s.rs' % k))
 
 
-def confirm(prop, k, feats, rnd=1):
+def confirm(prop, k, feats, rnd=1, offset=None):
     wt = ('/tmp/seed_' if rnd == 1 else '/tmp/seed%d_' % rnd) + prop
     patch = os.path.join(wt, '_seed', 'patch_%s.diff' % k)
     sh('git checkout -- . ', cwd=wt)
@@ -57,7 +57,7 @@ def confirm(prop, k, feats, rnd=1):
     if not (ok_suite and rc0 == 0 and rc1 != 0):
         print('NOT CONFIRMED')
         return 1
-    sid = '%s-%s' % (prop, int(k) + 2 * (rnd - 1))
+    sid = '%s-%s' % (prop, int(k) + (2 * (rnd - 1) if offset is None else offset))
     d = os.path.join(SEEDED, sid)
     os.makedirs(d, exist_ok=True)
     shutil.copy(patch, os.path.join(d, 'patch.diff'))
@@ -123,6 +123,6 @@ def run(sid, props):
 
 if __name__ == '__main__':
     if sys.argv[1] == 'confirm':
-        sys.exit(confirm(sys.argv[2], sys.argv[3], sys.argv[4], int(sys.argv[5]) if len(sys.argv) > 5 else 1))
+        sys.exit(confirm(sys.argv[2], sys.argv[3], sys.argv[4], int(sys.argv[5]) if len(sys.argv) > 5 else 1, int(sys.argv[6]) if len(sys.argv) > 6 else None))
     elif sys.argv[1] == 'run':
         sys.exit(run(sys.argv[2], sys.argv[3:]))
